@@ -30,6 +30,22 @@ def law_dict(law, idx, named, params_out, explicit_species=False):
     return t, d
 
 
+def scale_time(prog, c):
+    """the same program in another time unit: t -> t/c, every rate constant -> c * k (Hill K and n are not rates;
+    the three coefficients of the affine general law are).  An exact symmetry of the behaviours of Ssa.tla and its
+    relatives: waiting times are E/Lambda, selection depends on ratios of propensities only."""
+    def mul(q):
+        return [q[0] * c, q[1]]
+    rxs = []
+    for rx in prog["rx"]:
+        law = dict(rx["law"])
+        law["k"] = mul(law["k"])
+        if law["type"] == "affine":
+            law["K"], law["n"] = mul(law["K"]), mul(law["n"])
+        rxs.append(dict(rx, law=law))
+    return dict(prog, rx=rxs)
+
+
 def delay_args(dl, idx, named, params_out):
     t = dl["type"]
     if t == "none":
